@@ -1,7 +1,8 @@
 --------------------------- MODULE Trace_Request ---------------------------
 (* Trace validation (code -> spec) for Request.tla.  A trace starts with a     *)
 (* "Config" event (pool condition per host, is_idempotent, speculative         *)
-(* max_attempts, explicit target host) that selects the initial state; every   *)
+(* max_attempts, explicit target host, stream-id space) selecting the initial   *)
+(* state; every                                                                *)
 (* further event names the operation performed on the real Session /           *)
 (* ResponseFuture with its arguments and carries the projected state of the    *)
 (* real objects after it.  An event is accepted iff the corresponding          *)
@@ -54,7 +55,8 @@ TraceInit ==
     /\ Len(Tr[1].pool) = NHosts
     /\ \A h \in Hosts : Tr[1].pool[h] \in PoolConds \cup {"healthy"}
     /\ Tr[1].idem \in IdemChoices /\ Tr[1].target \in TargetChoices /\ Tr[1].spec \in SpecChoices
-    /\ InitWith([h \in Hosts |-> Tr[1].pool[h]], Tr[1].idem, Tr[1].target, Tr[1].spec)
+    /\ Tr[1].ids \in IdChoices
+    /\ InitWith([h \in Hosts |-> Tr[1].pool[h]], Tr[1].idem, Tr[1].target, Tr[1].spec, Tr[1].ids)
 
 TraceNext ==
     /\ l <= Len(Tr)
